@@ -45,6 +45,9 @@ type world struct {
 	prog     *ssa.Program
 	spkgs    map[string]*ssa.Package
 	decls    map[*types.Func]*ast.FuncDecl
+
+	rolesCache *roles
+	reachCache []*ssa.Function
 }
 
 func load(repo string, tags string) (*world, error) {
@@ -273,7 +276,6 @@ func main() {
 	emitOperators(w, o)
 	emitErrors(w, o)
 	emitStatus(w, o)
-	emitStack(w, o)
 	emitCodec(w, o, abs)
 	emitState(w, o)
 
@@ -448,44 +450,111 @@ func emitOperators(w *world, o *out) {
 // ---------- error kinds and the context gate ----------
 
 func emitErrors(w *world, o *out) {
-	o.guard("errorTypes", listFallback("errorTypes")+"\n"+pairsFallback("errorKinds"), func() {
-		errTypes := []string{}
-		errKinds := []pair{}
+	o.guard("errorMessages", pairsFallback("errorMessages"), func() {
+		// every error type of the evaluation package, identified by the text of its message (which is
+		// what reaches the log) rather than by its unexported name, with the kind(s) its errorKind
+		// method can return ("<no errorKind method>" when it has none)
+		byType := map[string]*pair{}
 		for obj, fd := range w.decls {
-			if obj.Pkg() != w.root.Types || recvTypeName(obj) == "" {
+			if obj.Pkg() != w.root.Types || recvTypeName(obj) == "" || fd.Body == nil {
 				continue
 			}
 			recv := strings.TrimPrefix(recvTypeName(obj), "*")
-			switch obj.Name() {
-			case "Error":
-				errTypes = append(errTypes, recv)
-			case "errorKind":
-				kinds := returnedConstNames(w.root, fd)
-				errKinds = append(errKinds, pair{recv, strings.Join(kinds, "|")})
+			sig := obj.Type().(*types.Signature)
+			switch {
+			case obj.Name() == "Error" && sig.Params().Len() == 0 && sig.Results().Len() == 1 && typeStr(sig.Results().At(0).Type()) == "string":
+				msg := ""
+				ast.Inspect(fd.Body, func(n ast.Node) bool {
+					if e, ok := n.(ast.Expr); ok && msg == "" {
+						if tv, ok := w.root.TypesInfo.Types[e]; ok && tv.Value != nil && tv.Value.Kind() == constant.String {
+							msg = constant.StringVal(tv.Value)
+							return false
+						}
+					}
+					return true
+				})
+				if byType[recv] == nil {
+					byType[recv] = &pair{"", "<no errorKind method>"}
+				}
+				byType[recv].a = msg
+			case sig.Params().Len() == 0 && sig.Results().Len() == 1 && typeStr(sig.Results().At(0).Type()) == "ldreason.EvalErrorKind":
+				if byType[recv] == nil {
+					byType[recv] = &pair{"", ""}
+				}
+				byType[recv].b = strings.Join(returnedConstValues(w.root, fd), "|")
 			}
 		}
-		sort.Strings(errTypes)
-		sort.Slice(errKinds, func(i, j int) bool { return errKinds[i].a < errKinds[j].a })
-		o.w("def errorTypes : List String := %s\n", leanStrList(errTypes))
-		o.w("def errorKinds : List (String × String) := %s\n", leanPairList(errKinds))
+		res := []pair{}
+		for _, p := range byType {
+			if p.a == "" && p.b != "" {
+				p.a = "<not an error type>"
+			}
+			res = append(res, *p)
+		}
+		sort.Slice(res, func(i, j int) bool { return res[i].a < res[j].a })
+		o.w("def errorMessages : List (String × String) := %s\n", leanPairList(res))
 	})
 	o.guard("errorKindFallback", strFallback("errorKindFallback"), func() {
-		_, fd := w.funcNamed(w.root, "errorKindForError")
-		if fd == nil {
-			failf("errorKindForError not found")
-		}
-		// the value returned when the error is not one of the package's own types: the return
-		// statement that is not nested in any if/switch
-		last := ""
-		for _, st := range fd.Body.List {
-			if r, ok := st.(*ast.ReturnStmt); ok && len(r.Results) == 1 {
-				last = constName(w.root, r.Results[0])
+		// the kind reported for an error that is not one of the package's own types: every constant
+		// errorKindForError can return without asking the error itself (SSA: constant operands of
+		// its return instructions, through phis), whatever the shape of the function
+		var fn *ssa.Function
+		for _, f := range w.moduleFunctions(w.root.PkgPath) {
+			// identified by its signature: func(error) ldreason.EvalErrorKind
+			if f.Signature.Recv() == nil && f.Parent() == nil && f.Signature.Params().Len() == 1 && f.Signature.Results().Len() == 1 &&
+				typeStr(f.Signature.Params().At(0).Type()) == "error" && typeStr(f.Signature.Results().At(0).Type()) == "ldreason.EvalErrorKind" {
+				if fn != nil {
+					failf("two functions of type func(error) ldreason.EvalErrorKind")
+				}
+				fn = f
 			}
 		}
-		if last == "" {
-			failf("errorKindForError has no top-level return of a constant")
+		if fn == nil {
+			failf("no function of type func(error) ldreason.EvalErrorKind")
 		}
-		o.w("def errorKindFallback : String := %s\n", leanStr(last))
+		consts := []string{}
+		dynamic := 0
+		seen := map[ssa.Value]bool{}
+		var visit func(v ssa.Value)
+		visit = func(v ssa.Value) {
+			if seen[v] {
+				return
+			}
+			seen[v] = true
+			switch t := v.(type) {
+			case *ssa.Const:
+				if t.Value != nil && t.Value.Kind() == constant.String {
+					consts = append(consts, constant.StringVal(t.Value))
+				} else {
+					consts = append(consts, "<non-string constant>")
+				}
+			case *ssa.Phi:
+				for _, e := range t.Edges {
+					visit(e)
+				}
+			case *ssa.Call:
+				if t.Call.IsInvoke() && t.Call.Method.Name() == "errorKind" {
+					dynamic++
+				} else {
+					consts = append(consts, "<result of another call>")
+				}
+			default:
+				consts = append(consts, fmt.Sprintf("<%T>", v))
+			}
+		}
+		for _, b := range fn.Blocks {
+			for _, ins := range b.Instrs {
+				if r, ok := ins.(*ssa.Return); ok {
+					for _, res := range r.Results {
+						visit(res)
+					}
+				}
+			}
+		}
+		if dynamic == 0 {
+			consts = append(consts, "<never asks the error for its kind>")
+		}
+		o.w("def errorKindFallback : String := %s\n", leanStr(strings.Join(sortedSet(consts), "|")))
 	})
 	o.guard("evaluateFirstCheck", strFallback("evaluateFirstCheck"), func() {
 		o.w("def evaluateFirstCheck : String := %s\n", leanStr(w.evaluateGate()))
@@ -512,6 +581,62 @@ func constName(p *packages.Package, e ast.Expr) string {
 	return ""
 }
 
+// funcBySig: the unique package-level function (no receiver) of the package with this signature.
+func (w *world) funcBySig(p *packages.Package, sig string) *ast.FuncDecl {
+	var found *ast.FuncDecl
+	n := 0
+	for obj, fd := range w.decls {
+		if obj.Pkg() != p.Types || fd.Recv != nil || fd.Body == nil {
+			continue
+		}
+		s := types.TypeString(obj.Type(), func(q *types.Package) string { return q.Name() })
+		// drop parameter names
+		if normSig(obj.Type().(*types.Signature)) == sig || s == sig {
+			found = fd
+			n++
+		}
+	}
+	if n != 1 {
+		return nil
+	}
+	return found
+}
+
+func normSig(sig *types.Signature) string {
+	ps := []string{}
+	for i := 0; i < sig.Params().Len(); i++ {
+		ps = append(ps, typeStr(sig.Params().At(i).Type()))
+	}
+	rs := []string{}
+	for i := 0; i < sig.Results().Len(); i++ {
+		rs = append(rs, typeStr(sig.Results().At(i).Type()))
+	}
+	res := "func(" + strings.Join(ps, ", ") + ")"
+	switch len(rs) {
+	case 0:
+	case 1:
+		res += " " + rs[0]
+	default:
+		res += " (" + strings.Join(rs, ", ") + ")"
+	}
+	return res
+}
+
+func returnedConstValues(p *packages.Package, fd *ast.FuncDecl) []string {
+	out := []string{}
+	ast.Inspect(fd.Body, func(n ast.Node) bool {
+		if r, ok := n.(*ast.ReturnStmt); ok && len(r.Results) == 1 {
+			if tv, ok := p.TypesInfo.Types[r.Results[0]]; ok && tv.Value != nil && tv.Value.Kind() == constant.String {
+				out = append(out, constant.StringVal(tv.Value))
+			} else {
+				out = append(out, "<not a constant>")
+			}
+		}
+		return true
+	})
+	return sortedSet(out)
+}
+
 func returnedConstNames(p *packages.Package, fd *ast.FuncDecl) []string {
 	out := []string{}
 	ast.Inspect(fd.Body, func(n ast.Node) bool {
@@ -529,9 +654,9 @@ func returnedConstNames(p *packages.Package, fd *ast.FuncDecl) []string {
 // must return a result built from NewEvaluationDetailForError(<constant>, …) without further calls
 // to the module.
 func (w *world) evaluateGate() string {
-	fn := w.method(w.root.PkgPath, "evaluator", "Evaluate")
+	fn := w.method(w.root.PkgPath, w.findRoles().evaluator.Obj().Name(), "Evaluate")
 	if fn == nil || len(fn.Blocks) == 0 {
-		failf("(*evaluator).Evaluate not found")
+		failf("method Evaluate of the evaluator struct not found")
 	}
 	entry := fn.Blocks[0]
 	var first *ssa.Call
@@ -614,9 +739,10 @@ func calleeName(f *ssa.Function) string {
 
 func emitStatus(w *world, o *out) {
 	o.guard("statusPriority", pairsFallback("statusPriority"), func() {
-		_, fd := w.funcNamed(w.root, "getBigSegmentsStatusPriority")
+		// identified by its signature: func(ldreason.BigSegmentsStatus) int
+		fd := w.funcBySig(w.root, "func(ldreason.BigSegmentsStatus) int")
 		if fd == nil {
-			failf("getBigSegmentsStatusPriority not found")
+			failf("no unique function of type func(ldreason.BigSegmentsStatus) int")
 		}
 		prio := []pair{}
 		def := ""
@@ -676,18 +802,18 @@ func emitStatus(w *world, o *out) {
 		o.w("def statusPriority : List (String × String) := %s\n", leanPairList(prio))
 	})
 	o.guard("bigSegmentRefFormat", strFallback("bigSegmentRefFormat"), func() {
-		obj, fd := w.funcNamed(w.root, "makeBigSegmentRef")
+		// identified by its signature: func(*ldmodel.Segment) string
+		fd := w.funcBySig(w.root, "func(*ldmodel.Segment) string")
 		if fd == nil {
-			failf("makeBigSegmentRef not found")
+			failf("no unique function of type func(*ldmodel.Segment) string")
 		}
-		_ = obj
 		format := ""
 		ast.Inspect(fd.Body, func(n ast.Node) bool {
 			if c, ok := n.(*ast.CallExpr); ok && len(c.Args) > 0 {
 				if f, ok := calledFunc(w.root, c); ok && f.FullName() == "fmt.Sprintf" {
 					tv := w.root.TypesInfo.Types[c.Args[0]]
 					if tv.Value == nil {
-						failf("format of makeBigSegmentRef is not a constant")
+						failf("the big-segment reference format is not a constant")
 					}
 					args := []string{}
 					for _, a := range c.Args[1:] {
@@ -699,7 +825,7 @@ func emitStatus(w *world, o *out) {
 			return true
 		})
 		if format == "" {
-			failf("makeBigSegmentRef no longer calls fmt.Sprintf")
+			failf("the func(*ldmodel.Segment) string helper no longer calls fmt.Sprintf")
 		}
 		o.w("def bigSegmentRefFormat : String := %s\n", leanStr(format))
 	})
@@ -746,59 +872,3 @@ func typedPath(p *packages.Package, e ast.Expr) string {
 	return fmt.Sprintf("%T", e)
 }
 
-// ---------- recursion bookkeeping ----------
-
-func emitStack(w *world, o *out) {
-	o.guard("stackParamTypes", listFallback("stackParamTypes"), func() {
-		// every way a function of the evaluation package receives the chain of keys being evaluated
-		kinds := []string{}
-		for obj := range w.decls {
-			if obj.Pkg() != w.root.Types {
-				continue
-			}
-			sig := obj.Type().(*types.Signature)
-			tuples := []*types.Tuple{sig.Params(), sig.Results()}
-			for _, tu := range tuples {
-				for i := 0; i < tu.Len(); i++ {
-					if s := typeStr(tu.At(i).Type()); strings.Contains(s, "evaluationStack") {
-						kinds = append(kinds, s)
-					}
-				}
-			}
-			if r := sig.Recv(); r != nil && strings.Contains(typeStr(r.Type()), "evaluationStack") {
-				kinds = append(kinds, "receiver "+typeStr(r.Type()))
-			}
-		}
-		// and every struct field that holds one
-		for _, name := range w.root.Types.Scope().Names() {
-			tn, ok := w.root.Types.Scope().Lookup(name).(*types.TypeName)
-			if !ok {
-				continue
-			}
-			if st, ok := tn.Type().Underlying().(*types.Struct); ok {
-				for i := 0; i < st.NumFields(); i++ {
-					if strings.Contains(typeStr(st.Field(i).Type()), "evaluationStack") {
-						kinds = append(kinds, "field "+name+"."+st.Field(i).Name()+" "+typeStr(st.Field(i).Type()))
-					}
-				}
-			}
-		}
-		o.w("def stackParamTypes : List String := %s\n", leanStrList(sortedSet(kinds)))
-	})
-	o.guard("stackFields", listFallback("stackFields"), func() {
-		tn, ok := w.root.Types.Scope().Lookup("evaluationStack").(*types.TypeName)
-		if !ok {
-			failf("type evaluationStack not found")
-		}
-		st, ok := tn.Type().Underlying().(*types.Struct)
-		if !ok {
-			failf("evaluationStack is not a struct")
-		}
-		fields := []string{}
-		for i := 0; i < st.NumFields(); i++ {
-			fields = append(fields, st.Field(i).Name()+" : "+typeStr(st.Field(i).Type()))
-		}
-		o.w("def stackFields : List String := %s\n", leanStrList(fields))
-	})
-	o.w("\n")
-}
